@@ -907,8 +907,14 @@ def pProgram : Nat → List Tok → PR (List PStmt)
 dropped), through the library's `StringReader` and the chunked scanner. -/
 def tokensOf (text : Bytes) : List Tok := Lex.popStream false (Lex.lineReader Lex.chunkMax text)
 
+/-- fuel `parseText` gives the (fuelled, total) parser: a bound on the depth of the call tree. One pair of parentheses
+costs eleven levels (logic … element) and is two tokens, so `2 * tokens` was NOT enough for deeply parenthesised
+expressions (`((((((((((1))))))))))` ran out of fuel where the C++ accepts); `64 * tokens + 64` covers the bound of
+`C12.program_roundtrip` (`C12.parse_fuel_suffices`). -/
+def parseFuel (ts : List Tok) : Nat := 64 * ts.length + 64
+
 def parseText (text : Bytes) : PR (List PStmt) :=
   let ts := tokensOf text
-  pProgram (2 * ts.length + 50) ts
+  pProgram (parseFuel ts) ts
 
 end BlocV.Parse
